@@ -227,7 +227,15 @@ int __wrap_select(int n, fd_set *r, fd_set *w, fd_set *e, struct timeval *tv) {
   if (t_lib) perturb();
   return __real_select(n, r, w, e, tv);
 }
-ssize_t __wrap_read(int fd, void *b, size_t n) { if (t_lib) perturb(); return __real_read(fd, b, n); }
+static volatile int g_in_handshake;    /* a clientInput thread has read a one-byte handshake message and is about to act on it */
+ssize_t __wrap_read(int fd, void *b, size_t n) {
+  ssize_t r;
+  if (t_lib) perturb();
+  r = __real_read(fd, b, n);
+  /* clientInput between reading the security-type / ClientInit byte and storing the next handshake state */
+  if (g_force == 8 && t_lib && t_role == 2 && n == 1 && r == 1 && !g_in_handshake) { g_in_handshake = 1; usleep(fsl(300000)); }
+  return r;
+}
 static volatile int g_write_blocked;   /* a clientOutput thread found its socket full */
 ssize_t __wrap_write(int fd, const void *b, size_t n) {
   ssize_t r;
@@ -618,7 +626,7 @@ static void *late_connector(void *p) {
 static int run_forced(int which) {
   int argc = 0, port; static cli_t c; pthread_t th; volatile int stop = 0; uint32_t *fb;
   g_seed = 7; g_yield_pct = 0;
-  rfbLogEnable(0);
+  rfbLogEnable(getenv("VDRV_LOG") != NULL);
   S = rfbGetScreen(&argc, NULL, W, H, 8, 3, 4);
   fb = (uint32_t *)calloc(W * H, 4); S->frameBuffer = (char *)fb;
   S->deferUpdateTime = 1; S->newClientHook = new_hook; S->alwaysShared = TRUE; rfbSetCursor(S, NULL);
@@ -669,6 +677,23 @@ static int run_forced(int which) {
     printf("result hang=0 forced=newfbaccept new=%d gone=%d bad_unlock=%d held_at_return=%d misuse=%s\n", g_new, g_gone, g_bad_unlock, g_held_at_return, misuse_tok());
     return 0;
   }
+  if (which == 8) {
+    /* rfbShutdownServer (rfbCloseClient) while the client's thread is inside a handshake step */
+    pthread_t ht; static cli_t cc;
+    LIBCALL(rfbRunEventLoop(S, -1, TRUE));
+    memset(&cc, 0, sizeof cc); cc.port = port; cc.stop = &stop;
+    g_force = 8; g_connect_now = 1;
+    __real_pthread_create(&ht, NULL, late_connector, &cc);
+    { int w = 0; while (!g_in_handshake && w++ < sp(10000)) usleep(500); }
+    printf("presult mode=closeinhandshake in_handshake=%d\n", g_in_handshake);
+    fflush(stdout);
+    phase("shutdown", 12);
+    LIBCALL(rfbShutdownServer(S, TRUE));
+    g_force = 0; alarm(0);
+    stop = 1; __real_pthread_join(ht, NULL);
+    printf("result hang=0 forced=closeinhandshake new=%d gone=%d bad_unlock=%d held_at_return=%d misuse=%s\n", g_new, g_gone, g_bad_unlock, g_held_at_return, misuse_tok());
+    return 0;
+  }
   if (which == 7) {
     /* a signal handler of the application runs on a library thread: select() returns -1/EINTR there */
     int fd, served, torn, accepts, fd2; static cli_t cc; struct sigaction sa;
@@ -697,6 +722,9 @@ static int run_forced(int which) {
     accepts = fd2 >= 0 && cl_handshake(fd2) == 0;
     printf("presult2 accepts_after_signal=%d usr1=%d\n", accepts, g_usr1);
     fflush(stdout);
+    /* let that client finish its handshake and be served before the shutdown: closing a client whose thread is still
+       inside the handshake is a different replay (force closeinhandshake) */
+    if (accepts) { cl_fur(fd2, 0); cl_read_msg(fd2, &cc, 10000); }
     phase("shutdown", 15);
     LIBCALL(rfbShutdownServer(S, TRUE));
     alarm(0);
@@ -1159,6 +1187,7 @@ static void run_case(char *line) {
   else if (!strncmp(line, "force newfbgone", 15)) forced = 5;
   else if (!strncmp(line, "force newfbaccept", 17)) forced = 6;
   else if (!strncmp(line, "force eintr", 11)) forced = 7;
+  else if (!strncmp(line, "force closeinhandshake", 22)) forced = 8;
   sscanf(line, "stress %u %d %d %d %d %d %d %d", &seed, &y, &a, &b, &c, &d, &e, &f);
   fflush(stdout);
   pid = fork();
